@@ -48,6 +48,7 @@ type c15World struct {
 	// a complete further message of B that is already on A's connection (in flight in the
 	// transport) but not yet read by A: a hand-off of A must not lose or damage it
 	queued []byte
+	psend  []byte // content of the half-sent message of A
 }
 
 func (w *c15World) fail(key, f string, a ...any) bool {
@@ -208,7 +209,13 @@ func (w *c15World) apply(op string) (bool, bool) {
 			return false, true
 		}
 		A.s.StartMessage()
-		if err := A.s.WriteMessage(ctx, []byte("partial-10")); err != nil {
+		w.psend = []byte("partial-10")
+		if w.step%2 == 1 {
+			// variant: more than the 4 KiB flush threshold, so a first (not final) frame of the
+			// message has already gone out when the export is attempted
+			w.psend = payload(w.step+40, 5000)
+		}
+		if err := A.s.WriteMessage(ctx, w.psend); err != nil {
 			return true, w.fail("send-error", "WriteMessage: %v", err)
 		}
 		A.pSend = true
@@ -226,7 +233,7 @@ func (w *c15World) apply(op string) (bool, bool) {
 			return true, false
 		}
 		got, err := B.s.ReceiveCompleteMessage(ctx)
-		if err != nil || string(got) != "partial-10" {
+		if err != nil || !bytes.Equal(got, w.psend) {
 			return true, w.fail("auth-failure/partial-send", "peer could not read the finished partial message: %v", err)
 		}
 		return true, true
@@ -479,7 +486,7 @@ func c15BlobFaults(tier string) *vlib.Result {
 func C15Plan() *vlib.Plan {
 	p := &vlib.Plan{
 		Property: "C15", Level: "model_checking",
-		Rule:   "E-BFS: all histories of length <= D over 12 operations (1/5000-byte message each way, begin/finish partial send, begin/finish partial receive, hand-off of A, hand-off of B, B pipelines two messages of which A reads the first - the second stays in flight on the connection -, A reads the in-flight message) replayed on two fresh real streams keyed after a cleartext preamble; in every state ExportCryptoState is attempted on both ends and must succeed only if the reference model says established+clean; every frame on the wire is opened by the reference decryptor (nonce continuity across hand-offs, no reuse); each history ends with four further messages; histories of <= 4 operations that contain a hand-off also run on streams that were keyed with another key first and then re-keyed. Blob faults: every truncation, magic and version variants must be rejected. Non-trivial = history in which an export was attempted after at least one protected frame.",
+		Rule:   "E-BFS: all histories of length <= D over 12 operations (1/5000-byte message each way, begin/finish partial send (below the flush threshold, and above it so that a first frame has already gone out), begin/finish partial receive, hand-off of A, hand-off of B, B pipelines two messages of which A reads the first - the second stays in flight on the connection -, A reads the in-flight message) replayed on two fresh real streams keyed after a cleartext preamble; in every state ExportCryptoState is attempted on both ends and must succeed only if the reference model says established+clean; every frame on the wire is opened by the reference decryptor (nonce continuity across hand-offs, no reuse); each history ends with four further messages; histories of <= 4 operations that contain a hand-off also run on streams that were keyed with another key first and then re-keyed. Blob faults: every truncation, magic and version variants must be rejected. Non-trivial = history in which an export was attempted after at least one protected frame.",
 		Assume: []string{"a conservative refusal (e.g. after EndMessage until StartMessage) is recorded, not flagged; single-byte corruption of key/IV/counter bytes is outside the statement (counted)"},
 	}
 	p.Gen = func(tier string, yield func(vlib.Case)) {
